@@ -64,13 +64,15 @@ pub fn load_known() -> Vec<Known> {
 }
 
 fn tier_for(meta: &Meta, tier: &str) -> Option<Tier> {
-    let (name, runs, systematic) = match tier {
-        "quick" => ("quick", meta.quick_runs, false),
-        "thorough" => ("thorough", meta.thorough_runs, true),
+    // the quick tier runs the bounded systematic pass around one seeded run in 16, the thorough
+    // tier around every one
+    let (name, runs, systematic_every) = match tier {
+        "quick" => ("quick", meta.quick_runs, 16),
+        "thorough" => ("thorough", meta.thorough_runs, 1),
         _ => return None,
     };
     let runs = env_u64("VERIF_RUNS").unwrap_or(runs);
-    Some(Tier { name, runs, max_len: meta.max_len, systematic, workers: workers(), stop_on_first: true })
+    Some(Tier { name, runs, max_len: meta.max_len, systematic_every, workers: workers(), stop_on_first: true })
 }
 
 fn sample_json(t: &Trace, o: &Outcome) -> Value {
@@ -696,7 +698,7 @@ pub fn cmd_selfcheck() -> ExitCode {
         let meta = props::lookup(id).unwrap();
         let mut digests = Vec::new();
         for w in [1usize, workers(), workers()] {
-            let tier = Tier { name: "quick", runs: 4096, max_len: meta.max_len, systematic: false, workers: w, stop_on_first: false };
+            let tier = Tier { name: "quick", runs: 4096, max_len: meta.max_len, systematic_every: 0, workers: w, stop_on_first: false };
             let b = run_batch(&meta.prop, seed, &tier);
             if b.determinism_mismatches > 0 {
                 ok = false;
